@@ -613,6 +613,12 @@ var sqlSeq int
 
 func makers() []repoMaker {
 	return []repoMaker{
+		// the same repository obtained through the factory the command-line programs use: every
+		// repository it hands out is a map of its own
+		{name: "memory/factory", concurrent: true, appendOrder: true, open: func() (asset.Repository, func(), error) {
+			r, err := asset.NewRepository(asset.InMemoryRepositoryBuilderName, "")
+			return r, func() {}, err
+		}},
 		{name: "memory", concurrent: true, appendOrder: true, open: func() (asset.Repository, func(), error) { return asset.NewInMemoryRepository(), func() {}, nil }},
 		func() repoMaker {
 			dir := ""
